@@ -30,7 +30,9 @@ def rand_value(r, depth=0, maxdepth=4):
     if depth >= maxdepth or c < 0.35:
         return rand_scalar(r)
     if c < 0.6:
-        return {k: rand_value(r, depth + 1, maxdepth) for k in r.sample(["a", "b", "c", "d", "k"], r.randrange(0, 4))}
+        # member names: short ones, names that look like numbers or paths, names other languages' objects inherit
+        pool = ["a", "b", "c", "d", "k"] + (["constructor", "toString", "valueOf", "hasOwnProperty", "2024", "0", "a/b", ""] if r.random() < 0.25 else [])
+        return {k: rand_value(r, depth + 1, maxdepth) for k in r.sample(pool, r.randrange(0, 4))}
     if c < 0.9:
         n = r.randrange(0, 5)
         items = [rand_value(r, depth + 1, maxdepth) for _ in range(n)]
